@@ -58,7 +58,7 @@ def impl_assembly(case):
 def run(ctx):
     ctx.rule = ("every kit class, generic classes over one enzyme per geometry and IUPAC-signature parts, each record in "
                 "lower, upper, per-letter random and site-concentrated mixed case at 3 rotations; generated assemblies "
-                "(complete, with a missing module, with a duplicate, with an unused module) over several enzymes with "
+                "(complete, with a missing module, with a duplicate start, with a reverse-complementary start, with an unused module) over several enzymes with "
                 "per-record and per-letter case assignments; non-trivial = accepted record / successful or clashing assembly")
     rng = ctx.rng
     cases = []
@@ -84,12 +84,18 @@ def run(ctx):
         if ch is None:
             continue
         mods = list(ch["modules"])
-        kind = rng.choice(["complete", "complete", "missing", "duplicate", "unused"])
+        kind = rng.choice(["complete", "complete", "missing", "duplicate", "rc-duplicate", "unused"])
         if kind == "missing" and q > 1:
             mods.pop(rng.randrange(0, q))
         elif kind == "duplicate":
             m0 = rng.choice(mods)
             d = gens.gen_module(rng, enz, m0["up"], rng.choice(mods)["down"], 3, 2)
+            if d:
+                mods.append(d)
+        elif kind == "rc-duplicate":
+            # a module whose start overhang is the reverse complement of another module's start (the second clash of C03)
+            m0 = rng.choice(mods)
+            d = gens.gen_module(rng, enz, gens.rc(m0["up"]), rng.choice(mods)["down"], 3, 2)
             if d:
                 mods.append(d)
         elif kind == "unused":
